@@ -617,7 +617,7 @@ class XformsUnit(Unit):
 
 class BoxUnit(Unit):
     name = 'Util.execute_xform_box'
-    targets = (f'{UTIL}::Util.execute_xform_box',)
+    targets = (f'{UTIL}::Util.execute_xform_box', f'{UTIL}::Util.setup')
     required_covers = ('box drawn',)
     mutants = (
         ('box colour not reversed for BGR', f'{UTIL}::Util.execute_xform_box', 'c = c[::-1]', 'c = c', 'C17.box_colour'),
@@ -625,10 +625,12 @@ class BoxUnit(Unit):
     )
 
     def shapes(self, tier):
-        return [(fmt, col, wr) for fmt in ('BGR', 'RGB', 'GRAY') for col in ('none', 'rgb') for wr in (True, False)]
+        # prev: the format of a frame the SAME Util object drew the SAME box on before (None: first use) -- the colour of a box must follow the frame at hand, whatever came before
+        return [(fmt, col, wr, prev) for fmt in ('BGR', 'RGB', 'GRAY') for col in ('none', 'rgb') for wr in (True, False) for prev in (None, 'BGR', 'RGB', 'GRAY')
+                if prev is None or (col == 'rgb' and wr and prev != fmt)]
 
     def run(self, shape, dec):
-        fmt, col, writable = shape
+        fmt, col, writable, prev = shape
         h, w = z3.Ints('h w')
         xn, yn, wn, hn, d = z3.Ints('xn yn wn hn d')     # relative box as rationals xn/d, yn/d, wn/d, hn/d in [0, 1]
         r, g, b = z3.Ints('r g b')
@@ -640,8 +642,22 @@ class BoxUnit(Unit):
         frame = Obj('Frame', image=src, format=fmt, data=None)
         xf = adict(action='box', x=Rat(xn, d), y=Rat(yn, d), width=Rat(wn, d), height=Rat(hn, d), color=(r, g, b) if col == 'rgb' else None)
         ex.model_vars = dict(h=h, w=w, xn=xn, yn=yn, wn=wn, hn=hn, d=d, r=r, g=g, b=b)
+        # the Util object as the REAL setup() leaves it (so per-instance state a change introduces is followed)
+        me = Obj('Util')
+        for glob_ in ex.modules.values():
+            glob_.update(time=Native(lambda ex_: z3.Real('t_setup'), 'time'), ThreadPoolExecutor=Native(lambda ex_, *a, **k: Obj('executor'), 'ThreadPoolExecutor'))
         try:
-            out = ex.call_closure(closure(UTIL, 'Util.execute_xform_box'), [Obj('Util'), xf, frame], {})
+            ex.call_closure(closure(UTIL, 'Util.setup'), [me, adict(log=None, sleep=None, maxfps=None, xforms=[xf])], {})
+        except ExcSig as e:
+            raise Unsupported(f'contract no longer binds: Util.setup raises {e.cls} ({e.origin}) on a plain configuration')
+        try:
+            if prev is not None:
+                h0, w0 = z3.Ints('h_prev w_prev')
+                for a_ in dims_pre(h0, w0):
+                    ex.assume(a_)
+                ex.call_closure(closure(UTIL, 'Util.execute_xform_box'), [me, xf, Obj('Frame', image=image(h0, w0, 1 if prev == 'GRAY' else 3, writable=True), format=prev, data=None)], {})
+                ex.__dict__['cv_calls'] = []
+            out = ex.call_closure(closure(UTIL, 'Util.execute_xform_box'), [me, xf, frame], {})
         except ExcSig as e:
             ex.outcome = 'raise'
             ex.oblige(f'C17.no_failure: execute_xform_box raises {e.cls} ({e.origin})', False)
@@ -672,6 +688,38 @@ class BoxUnit(Unit):
         return ex
 
 
+def replay_box(self, failure):
+    """native: one real Util object (real normalize_config + setup), the same box drawn on frames of different formats one after the other; the pixel inside the box must be the
+    requested colour in the channel order of the frame at hand"""
+    import itertools, logging
+    import numpy as np
+    logging.disable(logging.CRITICAL)
+    from openfilter.filter_runtime.filters.util import Util
+    from openfilter.filter_runtime.frame import Frame
+    obs = []
+    rgb = (255, 128, 16)
+    for order in itertools.permutations(('BGR', 'RGB', 'GRAY'), 2):
+        u = Util.__new__(Util)
+        cfg = Util.normalize_config(dict(id='u', sources='tcp://localhost:5550', outputs='tcp://*:5552', xforms='box 0+0x1x1#ff8010'))
+        try:
+            u.setup(cfg)
+            for fmt in order:
+                img = np.zeros((4, 6) if fmt == 'GRAY' else (4, 6, 3), np.uint8)
+                out = u.execute_xform_box(cfg.xforms[0], Frame(img, {}, fmt))
+                px = out.image[1, 1]
+                want = round(sum(rgb) / 3) if fmt == 'GRAY' else (rgb if fmt == 'RGB' else rgb[::-1])
+                got = int(px) if fmt == 'GRAY' else tuple(int(v) for v in px)
+                if got != want:
+                    obs.append(f'box #ff8010 drawn on frames {order}: on the {fmt} frame the pixel is {got}, requested colour in that frame\'s order is {want}')
+        finally:
+            ex_ = getattr(u, 'executor', None)
+            if ex_ is not None:
+                ex_.shutdown(wait=False)
+    return {'confirmed': bool(obs), 'inputs': 'one Util object, box xform with colour #ff8010, frames of two different formats in sequence', 'observed': obs[:4] or 'colour follows the frame at hand',
+            'required': 'a box has the requested colour in the frame\'s own channel order'}
+
+
+BoxUnit.replay = replay_box
 UNITS += [XformsUnit(), BoxUnit()]
 
 
